@@ -1233,6 +1233,31 @@ class ShutilFacade:
                 raise
 
 
+    def copyfile(self, src, dst, *, follow_symlinks=True):
+        """what shutil.copyfile does, system call by system call: both files
+        are opened (and closed again) by the calling process"""
+        osf = OsFacade()
+        fsrc = osf.open(src, _os.O_RDONLY)
+        try:
+            fdst = osf.open(dst, _os.O_WRONLY | _os.O_CREAT | _os.O_TRUNC)
+            try:
+                while True:
+                    buf = osf.read(fsrc, 65536)
+                    if not buf:
+                        break
+                    osf.write(fdst, buf)
+            finally:
+                osf.close(fdst)
+        finally:
+            osf.close(fsrc)
+        return dst
+
+    def copy(self, src, dst, *, follow_symlinks=True):
+        return self.copyfile(src, dst)
+
+    copy2 = copy
+
+
 class TempfileFacade:
     def __getattr__(self, name):
         _unmodelled(f"tempfile.{name} is not modelled by simos")
